@@ -345,6 +345,31 @@ func init() {
 		Variant{Name: "receiver's deferred cancel wrapped in a function literal", Property: "C08", File: "proxy/proxy_streams.go", Benign: true,
 			Old: "\toutgoingContext, cancel := context.WithCancel(outgoingContext)\n\tdefer cancel()\n", New: "\toutgoingContext, cancel := context.WithCancel(outgoingContext)\n\tdefer func() { cancel() }()\n"},
 	)
+	// ---- round 11
+	addVariants(
+		Variant{Name: "debug snapshot deletes shards that are also local from the peer's table", Property: "C09", File: "proxy/shard_manager.go",
+			Old: "\t\tfor _, shard := range shards.Shards {\n\t\t\tshardKey := ClusterShardIDtoShortString(shard.ID)\n\t\t\tremoteShardsMap[shardKey] = nodeName\n\t\t}\n\t\tremoteShardCounts[nodeName] = len(shards.Shards)\n", New: "\t\tfor key, shard := range shards.Shards {\n\t\t\tshardKey := ClusterShardIDtoShortString(shard.ID)\n\t\t\tif _, isLocal := localShardMap[shardKey]; isLocal {\n\t\t\t\tdelete(shards.Shards, key)\n\t\t\t\tcontinue\n\t\t\t}\n\t\t\tremoteShardsMap[shardKey] = nodeName\n\t\t}\n\t\tremoteShardCounts[nodeName] = len(shards.Shards)\n", Expect: "O9.16"},
+		Variant{Name: "debug snapshot skips shards that are also local, without touching the table", Property: "C09", File: "proxy/shard_manager.go", Benign: true,
+			Old: "\t\tfor _, shard := range shards.Shards {\n\t\t\tshardKey := ClusterShardIDtoShortString(shard.ID)\n\t\t\tremoteShardsMap[shardKey] = nodeName\n\t\t}\n\t\tremoteShardCounts[nodeName] = len(shards.Shards)\n", New: "\t\tlisted := 0\n\t\tfor _, shard := range shards.Shards {\n\t\t\tshardKey := ClusterShardIDtoShortString(shard.ID)\n\t\t\tif _, isLocal := localShardMap[shardKey]; isLocal {\n\t\t\t\tcontinue\n\t\t\t}\n\t\t\tremoteShardsMap[shardKey] = nodeName\n\t\t\tlisted++\n\t\t}\n\t\tremoteShardCounts[nodeName] = listed\n"},
+		Variant{Name: "the sender's own shard dropped from the translated levels", Property: "C05", File: "proxy/proxy_streams.go",
+			Old: "\t\t\ts.mu.Lock()\n\t\t\tshardToAck, pendingDiscard := s.idRing.AggregateUpTo(proxyAckWatermark)\n\t\t\ts.mu.Unlock()\n", New: "\t\t\ts.mu.Lock()\n\t\t\tshardToAck, pendingDiscard := s.idRing.AggregateUpTo(proxyAckWatermark)\n\t\t\ts.mu.Unlock()\n\t\t\tdelete(shardToAck, s.targetShardID)\n", Expect: "O5.11"},
+		Variant{Name: "node meta size compared with a constant", Property: "C20", File: "proxy/shard_manager.go",
+			Old: "\tif len(data) > limit {\n\t\t// If metadata is too large, just send node name\n\t\treturn []byte(sd.manager.GetNodeName())\n\t}\n\n\treturn data\n", New: "\tif len(data) > 1024 {\n\t\t// If metadata is too large, just send node name\n\t\treturn []byte(sd.manager.GetNodeName())\n\t}\n\n\treturn data\n", Expect: "O20.14"},
+		Variant{Name: "node meta returned on the fitting side of the test", Property: "C20", File: "proxy/shard_manager.go", Benign: true,
+			Old: "\tif len(data) > limit {\n\t\t// If metadata is too large, just send node name\n\t\treturn []byte(sd.manager.GetNodeName())\n\t}\n\n\treturn data\n", New: "\tif len(data) <= limit {\n\t\treturn data\n\t}\n\t// If metadata is too large, just send node name\n\treturn []byte(sd.manager.GetNodeName())\n"},
+		Variant{Name: "node meta size test (seen from C09)", Property: "C09", File: "proxy/shard_manager.go", Benign: true,
+			Old: "\tif len(data) > limit {\n\t\t// If metadata is too large, just send node name\n\t\treturn []byte(sd.manager.GetNodeName())\n\t}\n\n\treturn data\n", New: "\tif limit >= len(data) {\n\t\treturn data\n\t}\n\t// If metadata is too large, just send node name\n\treturn []byte(sd.manager.GetNodeName())\n"},
+		Variant{Name: "forwarder appends its own shard keys to the outgoing context", Property: "C07", File: "proxy/admin_stream_transfer.go",
+			Old: "\toutgoingContext := metadata.NewOutgoingContext(f.targetStreamServer.Context(), f.targetMetadata)\n", New: "\toutgoingContext := metadata.NewOutgoingContext(f.targetStreamServer.Context(), f.targetMetadata)\n\toutgoingContext = metadata.AppendToOutgoingContext(outgoingContext, history.MetadataKeyServerShardID, strconv.Itoa(int(f.sourceClusterShardID.ShardID)))\n", Expect: "O7.9"},
+		Variant{Name: "forwarder's metadata passed through a local", Property: "C07", File: "proxy/admin_stream_transfer.go", Benign: true,
+			Old: "\toutgoingContext := metadata.NewOutgoingContext(f.targetStreamServer.Context(), f.targetMetadata)\n", New: "\tmd := f.targetMetadata\n\toutgoingContext := metadata.NewOutgoingContext(f.targetStreamServer.Context(), md)\n"},
+		Variant{Name: "yamux config built by a local helper closure", Property: "C10", File: "transport/mux/establisher.go", Benign: true,
+			Old: "\t\tcfg := yamux.DefaultConfig()\n\t\tcfg.Logger = wrapLoggerForYamux{logger: logger}\n\t\tcfg.LogOutput = nil\n\t\tcfg.StreamCloseTimeout = 30 * time.Second\n\t\treturn yamux.Client(conn, cfg)\n\t}\n", New: "\t\tmk := func() *yamux.Config {\n\t\t\tcfg := yamux.DefaultConfig()\n\t\t\tcfg.Logger = wrapLoggerForYamux{logger: logger}\n\t\t\tcfg.LogOutput = nil\n\t\t\tcfg.StreamCloseTimeout = 30 * time.Second\n\t\t\treturn cfg\n\t\t}\n\t\treturn yamux.Client(conn, mk())\n\t}\n"},
+		Variant{Name: "policy list abbreviated for the log", Property: "C15", File: "config/config.go",
+			Old: "func (l LoggingConfig) GetThrottleMaxRPS() float64 {\n\tif l.ThrottleMaxRPS > 0 {\n\t\treturn l.ThrottleMaxRPS\n\t}\n\treturn DefaultLoggingThrottleMaxRPS\n}\n", New: "func (l LoggingConfig) GetThrottleMaxRPS() float64 {\n\tif l.ThrottleMaxRPS > 0 {\n\t\treturn l.ThrottleMaxRPS\n\t}\n\treturn DefaultLoggingThrottleMaxRPS\n}\n\n// LoggedMethods abbreviates the allowed-method list for the startup log.\nfunc (p ACLPolicy) LoggedMethods() []string {\n\tentries := p.AllowedMethods.AdminService\n\tif len(entries) <= 10 {\n\t\treturn entries\n\t}\n\treturn append(entries[:10], \"...\")\n}\n", Expect: "O15.9"},
+		Variant{Name: "policy list abbreviated for the log on a copy", Property: "C15", File: "config/config.go", Benign: true,
+			Old: "func (l LoggingConfig) GetThrottleMaxRPS() float64 {\n\tif l.ThrottleMaxRPS > 0 {\n\t\treturn l.ThrottleMaxRPS\n\t}\n\treturn DefaultLoggingThrottleMaxRPS\n}\n", New: "func (l LoggingConfig) GetThrottleMaxRPS() float64 {\n\tif l.ThrottleMaxRPS > 0 {\n\t\treturn l.ThrottleMaxRPS\n\t}\n\treturn DefaultLoggingThrottleMaxRPS\n}\n\n// LoggedMethods abbreviates the allowed-method list for the startup log.\nfunc (p ACLPolicy) LoggedMethods() []string {\n\tentries := p.AllowedMethods.AdminService\n\tif len(entries) <= 10 {\n\t\treturn entries\n\t}\n\tout := make([]string, 0, 11)\n\tout = append(out, entries[:10]...)\n\treturn append(out, \"...\")\n}\n"},
+	)
 	// ---- C06
 	ast := "proxy/admin_stream_transfer.go"
 	addVariants(
